@@ -47,6 +47,7 @@ var grans = []time.Duration{1, 1, time.Microsecond, time.Second, 2 * time.Second
 
 type c36run struct {
 	strat   simrt.Strategy
+	longNames bool
 	crowd   int // >0: the package starts out with that many further compilable files (large packages)
 	steps   []step
 	gran    time.Duration
@@ -73,10 +74,11 @@ func (c36) NewRun(plan *simrt.Source, job *harn.Job) harn.Run {
 		// a large package: sizes around the thresholds where implementations switch
 		// strategy (batching, parallel stat, buffer growth)
 		r.crowd = []int{16, 31, 32, 33, 64, 65}[plan.Draw(6)]
+		r.longNames = plan.Chance(500)
 	}
 	name := func() string {
 		if r.crowd > 0 && plan.Chance(500) {
-			return crowdName(plan.Draw(r.crowd))
+			return r.cname(plan.Draw(r.crowd))
 		}
 		if plan.Chance(650) {
 			return compilable[plan.Draw(len(compilable))]
@@ -95,7 +97,7 @@ func (c36) NewRun(plan *simrt.Source, job *harn.Job) harn.Run {
 		s := step{Kind: kinds[plan.Draw(len(kinds))], Name: name(), Name2: name(), Size: plan.Draw(40), Clock: plan.Draw(len(clockSteps))}
 		r.steps = append(r.steps, s)
 	}
-	r.work = append(r.work, fmt.Sprintf("mtime granularity %v, self=%v, %d further source files to begin with", r.gran, r.self, r.crowd))
+	r.work = append(r.work, fmt.Sprintf("mtime granularity %v, self=%v, %d further source files to begin with (long names: %v)", r.gran, r.self, r.crowd, r.longNames))
 	h := uint64(14695981039346656037) ^ uint64(r.gran) ^ uint64(r.crowd)<<20
 	for _, s := range r.steps {
 		d := fmt.Sprintf("%s %s %s size=%d clock%+v", s.Kind, s.Name, s.Name2, s.Size, clockSteps[s.Clock])
@@ -122,6 +124,20 @@ func (r *c36run) Check(res *simrt.Result) *simrt.Failure { return r.failure }
 // crowdName is the k-th file of a large package.
 func crowdName(k int) string {
 	return fmt.Sprintf("crowd%03d%s", k, []string{".go", ".xgo", ".gop", ".gox"}[k%4])
+}
+
+// longCrowdName: as crowdName, but some hundred bytes long (generated code and
+// test data do have such names), so that the listing of a few dozen files runs
+// to many kilobytes.
+func longCrowdName(k int) string {
+	return fmt.Sprintf("crowd%03d_%s%s", k, strings.Repeat("a_rather_long_and_descriptive_file_name_", 3)[:90+k%7], []string{".go", ".xgo", ".gop", ".gox"}[k%4])
+}
+
+func (r *c36run) cname(k int) string {
+	if r.longNames {
+		return longCrowdName(k)
+	}
+	return crowdName(k)
 }
 
 // isRelevant is the reference definition: a compilable, non-underscore name.
@@ -234,7 +250,7 @@ func (r *c36run) runSeq(sim *simrt.Sim) {
 		}
 	}
 	for k := 0; k < r.crowd; k++ {
-		p := filepath.Join(pkgDir, crowdName(k))
+		p := filepath.Join(pkgDir, r.cname(k))
 		os.WriteFile(p, content(10+k%7, k), 0644)
 		stamp(p)
 	}
